@@ -598,4 +598,134 @@ m('c11-twin-split3', 'C11', 'neutral', COMP, RQ, "rng, use_rng = jax.random.spli
 m('c11-twin-bits-order', 'C11', 'neutral', COMP, TQ, "new_bits = math.log2(3) * total_num_params + 32 * total_num_floats",
   "new_bits = 32 * total_num_floats + total_num_params * math.log2(3)")
 
+# ---------------------------------------------------------------- C14
+m('c14-topk-unclamped', 'C14', 'break', MET, 'TopKAccuracy.evaluate_example', "jnp.argsort(-pred)[:max(self.k, 0)]",
+  "jnp.argsort(-pred)[:self.k]", mode='expr', expect='R-SLICE')
+m('c14-seqtopk-unclamped', 'C14', 'break', MET, 'SequenceTokenTopKAccuracy.evaluate_example',
+  "jnp.argsort(-pred, axis=1)[:, :max(self.k, 0)]", "jnp.argsort(-pred, axis=1)[:, :self.k]", mode='expr', expect='R-SLICE')
+m('c14-oov-and-fold', 'C14', 'break', MET, 'SequenceTokenOOVRate.evaluate_example',
+  "target_oov = jnp.maximum(target_oov, target == oov_value)", "target_oov *= target == oov_value", expect='R-FOLD')
+m('c14-topk-ascending', 'C14', 'break', MET, 'TopKAccuracy.evaluate_example', "jnp.argsort(-pred)", "jnp.argsort(pred)",
+  mode='expr', expect='R-ORDER.rank')
+m('c14-mask-after-argmax', 'C14', 'break', MET, 'SequenceTokenAccuracy.evaluate_example',
+  "if self.logits_mask is not None:\n  logits_mask = jnp.array(self.logits_mask)\n  pred += logits_mask", "pass",
+  expect='R-ORDER.logits-mask')
+m('c14-den-unweighted', 'C14', 'break', MET, 'SequenceTokenAccuracy.evaluate_example',
+  "return MeanStat.new(jnp.sum(correct * target_weight), jnp.sum(target_weight))",
+  "return MeanStat.new(jnp.sum(correct * target_weight), jnp.sum(jnp.ones_like(target_weight)))", expect='R-PAIR.num-den')
+m('c14-num-unweighted', 'C14', 'break', MET, 'SequenceTokenCrossEntropyLoss.evaluate_example',
+  "return MeanStat.new(jnp.sum(token_loss * target_weight), jnp.sum(target_weight))",
+  "return MeanStat.new(jnp.sum(token_loss), jnp.sum(target_weight))", expect='R-PAIR.num-den')
+m('c14-weights-from-pred', 'C14', 'break', MET, 'SequenceTokenCount.evaluate_example',
+  "target_weight = get_target_weight(target, self.masked_target_values)", "target_weight = get_target_weight(target, (0,))",
+  expect='R-PAIR.target-weight')
+m('c14-mask-eq', 'C14', 'break', MET, 'get_target_weight', "target_weight *= target != mv", "target_weight *= target == mv",
+  expect='R-FOLD.mask')
+m('c14-zero-type', 'C14', 'break', MET, 'SequenceTokenCount.zero', "return SumStat.new(0.0)", "return MeanStat.new(0.0, 0.0)",
+  expect='R-TYPE')
+m('c14-zero-nonzero', 'C14', 'break', MET, 'Accuracy.zero', "return MeanStat.new(0.0, 0.0)", "return MeanStat.new(0.0, 1.0)",
+  expect='R-TYPE.zero')
+m('c14-confusion-transposed', 'C14', 'break', MET, 'ConfusionMatrix.evaluate_example',
+  "confusion_matrix.at[target, pred_idx].set(1)", "confusion_matrix.at[pred_idx, target].set(1)", mode='expr',
+  expect='R-ORDER.confusion')
+m('c14-accuracy-argmin', 'C14', 'break', MET, 'Accuracy.evaluate_example', "jnp.argmax(pred, axis=-1)", "jnp.argmin(pred, axis=-1)",
+  mode='expr', expect='R-ORDER.argmax')
+m('c14-perdomain-wrong-key', 'C14', 'break', MET, 'PerDomainMetric.evaluate_example', "example[self.domain_id_key]",
+  "example['y']", mode='expr', expect='R-ORDER.domain')
+m('c14-twin-maximum-k', 'C14', 'neutral', MET, 'TopKAccuracy.evaluate_example', "jnp.argsort(-pred)[:max(self.k, 0)]",
+  "jnp.argsort(-pred)[:max(0, self.k)]", mode='expr')
+m('c14-twin-oov-or', 'C14', 'neutral', MET, 'SequenceTokenOOVRate.evaluate_example',
+  "target_oov = jnp.maximum(target_oov, target == oov_value)", "target_oov = jnp.logical_or(target_oov, target == oov_value)")
+m('c14-twin-weight-order', 'C14', 'neutral', MET, 'SequenceTokenAccuracy.evaluate_example',
+  "return MeanStat.new(jnp.sum(correct * target_weight), jnp.sum(target_weight))",
+  "return MeanStat.new(jnp.sum(target_weight * correct), jnp.sum(target_weight))")
+
+# ---------------------------------------------------------------- C05
+m('c05-merge-weight-max', 'C05', 'break', MET, 'MeanStat.merge', "weight = self.weight + other.weight",
+  "weight = jnp.maximum(self.weight, other.weight)", expect='R-STAT')
+m('c05-merge-cross-field', 'C05', 'break', MET, 'MeanStat.merge', "accum = self.accum + other.accum",
+  "accum = self.accum + other.weight", expect='R-STAT')
+m('c05-merge-direct-ctor', 'C05', 'break', MET, 'MeanStat.merge', "return MeanStat.new(accum, weight)",
+  "return MeanStat(accum, weight)", expect='R-STAT')
+m('c05-reduce-mean', 'C05', 'break', MET, 'MeanStat.reduce',
+  "return MeanStat.new(jnp.sum(self.accum, axis=axis), jnp.sum(self.weight, axis=axis))",
+  "return MeanStat.new(jnp.mean(self.accum, axis=axis), jnp.sum(self.weight, axis=axis))", expect='R-STAT')
+m('c05-sum-reduce-axis', 'C05', 'break', MET, 'SumStat.reduce', "return SumStat.new(jnp.sum(self.accum, axis=axis))",
+  "return SumStat.new(jnp.sum(self.accum))", expect='R-STAT')
+m('c05-new-no-clamp', 'C05', 'break', MET, 'MeanStat.new', "weight = jnp.maximum(0, jnp.array(weight, copy=False))",
+  "weight = jnp.array(weight, copy=False)", expect='R-STAT.sanitise')
+m('c05-new-no-zeroing', 'C05', 'break', MET, 'MeanStat.new', "accum = jnp.where(weight == 0, 0, jnp.array(accum, copy=False))",
+  "accum = jnp.array(accum, copy=False)", expect='R-STAT.sanitise')
+m('c05-result-raw-div', 'C05', 'break', MET, 'MeanStat.result', "return util.safe_div(self.accum, self.weight)",
+  "return self.accum / self.weight", expect='R-DIV')
+m('c05-batch-no-mask', 'C05', 'break', MET, 'evaluate_batch',
+  "if batch_mask is not None:\n  batch_stat = jax.tree_util.tree_map(functools.partial(apply_mask, batch_mask), batch_stat, metric.zero())",
+  "pass", expect='R-MASK.batch')
+m('c05-batch-mask-swapped', 'C05', 'break', MET, 'evaluate_batch',
+  "batch_stat = jax.tree_util.tree_map(functools.partial(apply_mask, batch_mask), batch_stat, metric.zero())",
+  "batch_stat = jax.tree_util.tree_map(functools.partial(apply_mask, batch_mask), metric.zero(), batch_stat)",
+  expect='R-MASK.batch')
+m('c05-apply-mask-swapped', 'C05', 'break', MET, 'apply_mask',
+  "return jnp.where(jnp.expand_dims(mask, tuple(range(1, rank))), a, b)",
+  "return jnp.where(jnp.expand_dims(mask, tuple(range(1, rank))), b, a)", expect='R-MASK.apply')
+m('c05-step-ignores-mask', 'C05', 'break', MOD, '_evaluate_model_step',
+  "new_stat = {k: metrics.evaluate_batch(metric, batch, pred, mask) for k, metric in model.eval_metrics.items()}",
+  "new_stat = {k: metrics.evaluate_batch(metric, batch, pred) for k, metric in model.eval_metrics.items()}",
+  expect='R-MASK.step')
+m('c05-step-replaces', 'C05', 'break', MOD, '_evaluate_model_step', "lambda a, b: a.merge(b)", "lambda a, b: b", mode='expr',
+  expect='R-STAT.merge')
+m('c05-eval-model-restart', 'C05', 'break', MOD, 'evaluate_model', "stat = _evaluate_model_step(model, params, batch, stat)",
+  "stat = _evaluate_model_step(model, params, batch, {k: metric.zero() for k, metric in model.eval_metrics.items()})",
+  expect='R-STAT.loop')
+m('c05-evaluator-unmasked-consumer', ['C05', 'C06'], 'break', 'fedjax/training/federated_experiment.py',
+  'ModelFullEvaluationFn.__call__', "return models.evaluate_model(self._model, params, batches)",
+  "return models.evaluate_model(self._model, params, batches)") if False else None
+m('c05-safe-div-nonzero', 'C05', 'break', 'fedjax/core/util.py', 'safe_div', "return jnp.where(safe, c, 0)",
+  "return jnp.where(safe, c, jnp.nan)", expect='R-DIV.safe')
+m('c05-twin-merge-order', 'C05', 'neutral', MET, 'MeanStat.merge', "accum = self.accum + other.accum",
+  "accum = other.accum + self.accum")
+m('c05-twin-merge-inline', 'C05', 'neutral', MET, 'SumStat.merge', "return SumStat.new(self.accum + other.accum)",
+  "total = self.accum + other.accum\nreturn SumStat.new(total)")
+
+# ---------------------------------------------------------------- C06
+SL = 'grad.scalar_loss'
+m('c06-grad-unmasked-mean', 'C06', 'break', MOD, SL, "loss = util.safe_div(jnp.vdot(batch_loss, mask), num_examples)",
+  "loss = jnp.mean(batch_loss)", expect='R-MASK.pair')
+m('c06-grad-count-len', 'C06', 'break', MOD, SL, "num_examples = jnp.sum(mask)", "num_examples = len(mask)",
+  expect='R-MASK.pair')
+m('c06-grad-raw-div', 'C06', 'break', MOD, SL, "loss = util.safe_div(jnp.vdot(batch_loss, mask), num_examples)",
+  "loss = jnp.vdot(batch_loss, mask) / num_examples", expect='R-')
+m('c06-grad-reg-twice', 'C06', 'break', MOD, SL, "if regularizer is not None:\n  loss += regularizer(params)",
+  "if regularizer is not None:\n  loss += regularizer(params)\n  loss += regularizer(params)", expect='R-REG')
+m('c06-grad-reg-dropped', 'C06', 'break', MOD, SL, "if regularizer is not None:\n  loss += regularizer(params)", "pass",
+  expect='R-REG')
+m('c06-grad-reg-scaled', 'C06', 'break', MOD, SL, "if regularizer is not None:\n  loss += regularizer(params)",
+  "if regularizer is not None:\n  loss *= regularizer(params)", expect='R-REG')
+m('c06-avgloss-unmasked', 'C06', 'break', MOD, '_evaluate_average_loss_step', "accum_loss += jnp.vdot(mask, loss)",
+  "accum_loss += jnp.sum(loss)", expect='R-MASK.pair')
+m('c06-avgloss-count', 'C06', 'break', MOD, '_evaluate_average_loss_step', "num_examples += jnp.sum(mask)",
+  "num_examples += len(loss)", occurrence=0, expect='R-MASK.pair')
+m('c06-avgloss-reg-per-batch', 'C06', 'break', MOD, '_evaluate_average_loss_step', "loss = per_example_loss(params, batch, use_rng)",
+  "loss = per_example_loss(params, batch, use_rng) + regularizer(params)", expect='R-REG') if False else None
+m('c06-finalize-raw-div', 'C06', 'break', MOD, '_finalize_average_loss', "average_loss = util.safe_div(accum_loss, num_examples)",
+  "average_loss = accum_loss / num_examples", expect='R-DIV')
+m('c06-finalize-reg-dropped', 'C06', 'break', MOD, '_finalize_average_loss',
+  "if regularizer is not None:\n  average_loss += regularizer(params)", "pass", expect='R-REG')
+m('c06-domain-unmasked', 'C06', 'break', AGN, 'create_domain_metrics_for_each_client.client_step',
+  "example_loss = per_example_loss(step_state['params'], batch, use_rng) * example_mask",
+  "example_loss = per_example_loss(step_state['params'], batch, use_rng)", expect='R-MASK.pair')
+m('c06-domain-count-unmasked', 'C06', 'break', AGN, 'create_domain_metrics_for_each_client.client_step',
+  "domain_num = jax.ops.segment_sum(example_mask.astype(jnp.float32), batch['domain_id'], num_domains)",
+  "domain_num = jax.ops.segment_sum(jnp.ones_like(example_loss), batch['domain_id'], num_domains)", expect='R-MASK.pair')
+m('c06-hyp-unpadded-consumer', 'C06', 'break', MIME, 'mime', "grad_fn = models.grad(per_example_loss, regularizer)",
+  "grad_fn = jax.grad(lambda p, b, r: jnp.mean(per_example_loss(p, b, r)))", expect='R-MASK.consumer')
+m('c06-fedavg-on-padded', ['C06', 'C05'], 'break', MIMELITE, 'mime_lite.apply',
+  "batch_clients = [(cid, cds.shuffle_repeat_batch(client_batch_hparams), crng) for cid, cds, crng in clients]",
+  "batch_clients = [(cid, cds.padded_batch(grads_batch_hparams), crng) for cid, cds, crng in clients]",
+  expect='R-MASK.consumer')
+m('c06-twin-sum-product', 'C06', 'neutral', MOD, SL, "loss = util.safe_div(jnp.vdot(batch_loss, mask), num_examples)",
+  "loss = util.safe_div(jnp.sum(batch_loss * mask), num_examples)")
+m('c06-twin-vdot-order', 'C06', 'neutral', MOD, '_evaluate_average_loss_step', "accum_loss += jnp.vdot(mask, loss)",
+  "accum_loss += jnp.vdot(loss, mask)")
+
 _E[:] = [e for e in _E if e is not None]
